@@ -211,7 +211,8 @@ func c12Units(thorough bool) []*explore.Unit {
 		units = append(units, &explore.Unit{Name: p.String(), Bound: b, Opt: vrt.Options{MaxSteps: 60000},
 			Body: batchBody(p, out), Check: c12Check(p, out), Sig: batchSig(out)})
 	}
-	return units
+	// cancellation / Close at every scheduling step of the batch (see batchStepUnits)
+	return append(units, batchStepUnits(thorough, c12Check)...)
 }
 
 func init() {
